@@ -3551,6 +3551,14 @@ class TLSConnection(TLSRecordLayer):
 
         # check if the ClientHello and its extensions are well-formed
 
+        # an empty supported_versions extension parses to versions=None
+        ext = clientHello.getExtension(ExtensionType.supported_versions)
+        if ext and not ext.versions:
+            for result in self._sendError(
+                    AlertDescription.decode_error,
+                    "Malformed supported_versions extension"):
+                yield result
+
         #If client's version is too low, reject it
         real_version = clientHello.client_version
         if real_version >= (3, 3):
